@@ -583,7 +583,12 @@ func (e *Engine) verifyFunc(c *Contract) *VC {
 				r.s.assume(f)
 			}
 			side2 = side2[:0]
-			vc.oblige(r.s, "post-function.ret", eq(r.vals[0].S, fv.S), fi.Decl.Pos(), fmt.Sprintf("result of %s equals its defining expression %s at return %d", c.Key, c.Function.Text, ri+1))
+			if c.Defines {
+				e.assumptions[fmt.Sprintf("%s: the specification symbol in %q is defined as the result of this function (assumes the function is a deterministic, terminating function of exactly the listed arguments)", c.Key, c.Function.Text)] = true
+				r.s.assume(eq(r.vals[0].S, fv.S))
+			} else {
+				vc.oblige(r.s, "post-function.ret", eq(r.vals[0].S, fv.S), fi.Decl.Pos(), fmt.Sprintf("result of %s equals its defining expression %s at return %d", c.Key, c.Function.Text, ri+1))
+			}
 		}
 		if len(c.Ensures) > 0 {
 			vc.cover(r.s, fmt.Sprintf("cover-ret%d.", ri+1), "true", fi.Decl.Pos(), fmt.Sprintf("return %d of %s is reachable", ri+1, c.Key))
@@ -664,6 +669,76 @@ func (e *Engine) verifyLemma(l *Lemma, assumeOnly bool) *VC {
 		s.assume(t)
 	}
 	vc.cover(s, "cover-pre", "true", token.NoPos, "hypotheses of lemma "+l.Name+" are satisfiable")
+	// uses: instances of this lemma (induction hypothesis, only below the measure) or of earlier lemmas
+	for _, u := range l.Uses {
+		var call *ast.CallExpr
+		var id *ast.Ident
+		g, ok := u.E.(*SGo)
+		if ok && len(g.Subs) == 0 {
+			call, ok = g.E.(*ast.CallExpr)
+		} else {
+			ok = false
+		}
+		if ok {
+			id, ok = call.Fun.(*ast.Ident)
+		}
+		if !ok {
+			vc.failed = fmt.Errorf("lemma %s: uses %q: expected name(args)", l.Name, u.Text)
+			return vc
+		}
+		var target *Lemma
+		for _, o := range e.lemmas {
+			if o.Pkg == l.Pkg && o.Name == id.Name {
+				target = o
+				break
+			}
+			if o == l {
+				break // only this lemma or lemmas declared before it
+			}
+		}
+		if target == nil || len(call.Args) != len(target.Params) {
+			vc.failed = fmt.Errorf("lemma %s: uses %q: no such earlier lemma / arity", l.Name, u.Text)
+			return vc
+		}
+		inst := map[string]*Val{}
+		for i, b := range target.Params {
+			v := env.evalGo(call.Args[i])
+			if env.err != nil {
+				vc.failed = fmt.Errorf("lemma %s: uses %q: %v", l.Name, u.Text, env.err)
+				return vc
+			}
+			t, _ := e.resolveType(b.Type, pkg)
+			inst[b.Name] = &Val{T: t, S: v.S}
+		}
+		ienv := &SpecEnv{eng: e, vc: vc, s: s, old: s, names: inst, pkg: pkg, side: &side, fr: fr}
+		var hyp, concl []string
+		for _, r := range target.Requires {
+			hyp = append(hyp, ienv.evalBool(r.E))
+		}
+		if target == l {
+			if l.Decreases == nil {
+				vc.failed = fmt.Errorf("lemma %s: uses itself without a decreases measure", l.Name)
+				return vc
+			}
+			m0 := env.eval(l.Decreases.E)
+			m1 := ienv.eval(l.Decreases.E)
+			if env.err == nil && ienv.err == nil {
+				hyp = append(hyp, fmt.Sprintf("(<= 0 %s)", m1.S), fmt.Sprintf("(< %s %s)", m1.S, m0.S))
+			}
+		}
+		for _, en := range target.Ensures {
+			concl = append(concl, ienv.evalBool(en.E))
+		}
+		if env.err != nil || ienv.err != nil {
+			vc.failed = fmt.Errorf("lemma %s: uses %q: %v %v", l.Name, u.Text, env.err, ienv.err)
+			return vc
+		}
+		for _, f := range side {
+			s.assume(f)
+		}
+		side = side[:0]
+		s.assume(implies(and(hyp...), and(concl...)))
+	}
 	for i, en := range l.Ensures {
 		t := env.evalBool(en.E)
 		if env.err != nil {
